@@ -15,7 +15,7 @@ RULE = ('cases: nested lists/dicts (depth <= 3) holding 1-5 float Series / DataF
         'of lengths 0-6 (full shape and every cell observed) for ij/oj/lj/rj x method, a stream of lj/rj joins over >= 3 series whose last/first index repeats another one, and a small malformed stream mixing arrays with Series (ValueError). '
         'Observed: container structure, index, columns, every cell, is-identity of pass-through members; compared in Coq '
         'with the model M_align evaluated by vm_compute; the oracle recomputes index / cells / columns from the property text '
-        'with Python sets and linear scans. Every stream is further varied in kind: tick length 1 us .. 1 day and origins 1900 / 2020 / 2250, policy / method / column spellings (inner, Outer, pad, backfill, ..), multi-letter and integer column names and dict keys, int-dtype operands, +-inf cells, 120-250-row series, presync via keywords / .oj.ffill attributes / join=<parameter name>, direct df_columns. non-trivial = at least two timeseries with different, overlapping indices (or two '
+        'with Python sets and linear scans. Every stream is further varied in kind: tick length 1 us .. 1 day and origins 1900 / 2020 / 2250, policy / method / column spellings (inner, Outer, pad, backfill, ..), multi-letter and integer column names and dict keys, int-dtype operands, +-inf cells, 120-250-row series, presync via keywords / .oj.ffill attributes / join=<parameter name>, recording functions with signatures (a, *args), (a, b=None, *args, **kw), (*args) receiving 2-4 timeseries, direct df_columns. non-trivial = at least two timeseries with different, overlapping indices (or two '
         'arrays of different lengths); distinct by full input')
 EXPLANATION = ('theorems C03_* (coq/props/C03.v) hold for every nested collection, every index and every policy: common index '
                '(intersection / union / first / last / explicit), values intact, missing = NaN, ffill/bfill = as-of join on '
@@ -402,7 +402,14 @@ def run_case(case):
         if k == 'presync':
             args = [build(a, reg) for a in case['args']]
             log = []
-            if len(args) == 1:
+            sig = case.get('sig')
+            if sig == 'a*':
+                def rec(a, *args): log.append([a] + list(args)); return 0
+            elif sig == 'ab*kw':
+                def rec(a, b=None, *args, **kw): log.append([a, b] + list(args) + list(kw.values())); return 0
+            elif sig == '*':
+                def rec(*args): log.append(list(args)); return 0
+            elif len(args) == 1:
                 def rec(a): log.append([a]); return 0
             elif len(args) == 2:
                 def rec(a, b): log.append([a, b]); return 0
@@ -415,7 +422,12 @@ def run_case(case):
             cols = case['columns'] if case['columns'] is not None else False
             via = case.get('via')
             try:
-                if via == 'attr':        # presync(f).oj.ffill(...) instead of join= / method= keywords (columns stay 'inner')
+                if sig:                  # timeseries spread over named, *args and **kwargs parameters
+                    nv = case.get('nvar', len(args))
+                    pos = args[:2 + nv] if sig == 'ab*kw' else args
+                    kws = dict(zip('xyzw', args[len(pos):]))
+                    f(*pos, join=H(), method=M(), columns=spelled(case, 'columns', cols), **kws)
+                elif via == 'attr':        # presync(f).oj.ffill(...) instead of join= / method= keywords (columns stay 'inner')
                     g = getattr(f, case['how'])
                     g = getattr(g, case['method']) if case['method'] else g
                     g(*args)
@@ -682,6 +694,18 @@ def gen_cases(rng, tier):
                     if j:
                         c.update(via='argname', argname='abc'[j[-1]], how={'x': idx_of(kids[j[-1]]), 'as': 'idx'})
                 cases.append(c)
+    for _ in range(30 if q else 400):                        # presync-decorated functions with *args / **kwargs receiving timeseries
+        n = rng.choice([2, 3, 3, 4])
+        kids = [rand_ts(rng, idx, 0.25) for idx in index_family(rng, n)]
+        if rng.random() < 0.3:
+            j = rng.randrange(n); kids[j] = {'L': [kids[j], {'N': 2}]}
+        sig = rng.choice(['a*', 'ab*kw', 'ab*kw', '*'])
+        nvar = rng.randrange(0, n - 1) if sig == 'ab*kw' else n
+        ex = rand_explicit(rng); ex['as'] = 'idx'
+        for how in POLICIES + [ex]:
+            for m in METHODS:
+                cases.append({'kind': 'presync', 'args': kids, 'how': how, 'method': m, 'columns': rng.choice(['ij', 'oj', None]),
+                              'default': rng.choice([None, 0]), 'sig': sig, 'nvar': nvar})
     for _ in range(40 if q else 500):                        # lj / rj with >= 3 series whose last (first) index repeats another one
         k = rng.choice([3, 3, 4, 5])
         items = [rand_ts(rng, idx, 0.15) for idx in index_family(rng, k, 'ends')]
